@@ -283,11 +283,13 @@ PLANS["C20"] = Plan(
 
 PLANS["C03"] = Plan(
     "C03", "other",
-    functions=["moptipyapps.binpacking2d.instance:Instance.__new__"],
+    functions=["moptipyapps.binpacking2d.instance:Instance.__new__", "moptipyapps.binpacking2d.instance:__lb_q#tail"],
     bounded=[bounded.bp_lower_bound.harness],
     explanation="proved (Hoare triple on the real statement block of Instance.__new__ from `bin_area = ...` to "
                 "`obj.lower_bound_bins = ...`): the geometric bound is the exact ceiling of total item area / bin area and the "
-                "stored bound is max(geometric, DAMV), hence at least the area bound. 'at most the optimum' rests on the "
+                "stored bound is max(geometric, DAMV), hence at least the area bound; the arithmetic tail of __lb_q returns at most "
+                "exactly |S1| + |S2| + max(ceil(sum3/W), ceil(|S3'|/floor(W/(floor(H/2)+1)))) + max(0, ceil(denom/(W*H))) "
+                "with integer ceilings (the sets enter through their sizes and sums). 'at most the optimum' rests on the "
                 "Dell'Amico-Martello-Vigo theorem (A2, assumed) and is backed by a bounded harness with instances whose optimum "
                 "is known by construction",
     assumptions=["A2: the DAMV bound L(q) is a valid lower bound for 2D bin packing with rotation (theorem, not proved here)",
